@@ -161,7 +161,7 @@ PROPS = {
                  "family-role nodes, depth up to 99, BOM on/off); one evaluation = one decode under a delivery plan, one encode under a write fault, or one simulated pipe run. "
                  "distinct_nontrivial = distinct (text hash, delivery plan with short reads) pairs plus distinct (text hash, write fault) pairs that fired."),
         "tiers": {
-            "quick": {"cases": 1600, "wall_s": 75, "seed": 1, "minimise_s": 30},
+            "quick": {"cases": 1000, "wall_s": 60, "seed": 1, "minimise_s": 30},
             "thorough": {"cases": 200000, "wall_s": 1200, "seed": 1001, "minimise_s": 90},
         },
         "probes_wanted": ["nodes", "level>=10"],
@@ -209,7 +209,7 @@ PROPS = {
         "rule": ("cases = seeded adversarial byte streams x 4 option combinations; one evaluation = one decode under one fault or delivery plan. distinct_nontrivial = distinct "
                  "(stream, plan, options) triples with short reads plus one per (stream, options) whose truncation offsets were enumerated."),
         "tiers": {
-            "quick": {"cases": 1200, "wall_s": 75, "seed": 1, "minimise_s": 30},
+            "quick": {"cases": 1000, "wall_s": 60, "seed": 1, "minimise_s": 30},
             "thorough": {"cases": 100000, "wall_s": 1200, "seed": 1001, "minimise_s": 90},
         },
         "probes_wanted": ["document", "parse_error", "injected_error_returned", "tolerated_indent_panic"],
